@@ -13,6 +13,7 @@ CHECKS = {
  'C01': (MC, "all 256 opcodes x all operand bit patterns (every operand byte symbolic) against a format table written from the Dalvik spec", '5/C01', 'symbolic execution of get_instruction + accessors, z3 BV'),
  'C05': (MC, "skeleton DEX (3 classes incl. interface, covariant method pair, abstract/native methods, array field) with symbolic bytes overlaid on one field group at a time (class_def words, type/proto/field/method id fields, class_data uleb bytes, code_item header); the real DEX() object model is compared with an independent term-aware reference reader of the same bytes, plus get_class / get_encoded_method_descriptor / get_encoded_field_descriptor lookups", '5/C05', 'symbolic execution of the whole DEX parse on skeleton overlays + reference reader'),
  'C06': (MC, "read_null_terminated_string on up to 300 fully symbolic bytes (one path per first-NUL position, chunk boundaries included); MUTF-8 round trip of 1..2 (thorough 3) fully symbolic UTF-16 code units through StringDataItem and the repo's mutf8.decode binding (the mutf8 package's Python decoder run symbolically); const-string / jumbo index symbolic on a skeleton DEX", '5/C06', 'symbolic execution with SymIO, symbolic strings and the AST-rewritten mutf8 fallback'),
+ 'C07': (MC, "(O1) the real load-order table is a strict total order consistent with the declared dependencies (finite z3 query); (O3) the map entries of skeleton DEX files are routed through a symbolic permutation: all 720 orders of a 6-entry map, all 66 transpositions and 24 (reversed) rotations of a 12-entry map; parsed classes, members, strings and code must equal the original order", '5/C07', 'symbolic permutation of map entries through the real MapList parse + z3 order query'),
  'C08': (MC, "code items with 1..3 fully symbolic try_items and 1..2 handler lists (sizes -2..2, symbolic uleb128 fields of 1-2 bytes), padding parity both ways; reported tries/handlers/determineException compared with a declarative decode of the same bytes", '5/C08', 'symbolic execution of DalvikCode parsing + determineException'),
  'C09': (MC, "DEX()/HeaderItem on a fully symbolic 112-byte header with Adler-32 as an uninterpreted value and a MapList call-order monitor; single-byte-change lemma on the Adler-32 definition (z3 LIA); short buffers", '5/C09', 'symbolic execution of DEX.__init__/HeaderItem + z3 integer lemma'),
  'C29': (MC, "ResourceResolver over tables of 1..4 (thorough 5) real ARSCResTableEntry objects, one optionally complex, with every value's type (reference / literal) and 32-bit data symbolic (references range over all entries, a missing id and null); unwinding assertion depth <= K+2; resolved values equal the literals reachable in the reference graph", '5/C29', 'symbolic execution of the resolver with an unwinding assertion'),
